@@ -563,6 +563,7 @@ func c17OneChain(w *run.Worker, idx []int, files []string, poss []token.LnColPos
 func c17Run(w *run.Worker) {
 	c17Chains(w)
 	c17LoadFaults(w)
+	c17UseChainFaults(w)
 	c17Lookup(w)
 	c17RunFaults(w)
 	c17Trees(w)
@@ -616,6 +617,17 @@ func c17Replay(raw json.RawMessage) (bool, string) {
 			}
 		}
 		return bad, b.String()
+	case "use-chain-fault":
+		a := strings.SplitN(c.Source, c17SepM, 2)
+		if len(a) != 2 {
+			return false, "malformed case"
+		}
+		b := strings.SplitN(a[1], c17SepL, 2)
+		if len(b) != 2 {
+			return false, "malformed case"
+		}
+		probs := c17UseChainCheck(map[string]string{"s.p": a[0], "m.p": b[0], "l.p": b[1]})
+		return len(probs) > 0, fmt.Sprint(probs)
 	case "lookup":
 		pc := token.NewPosCache(c.Text)
 		got := pc.LnCol(token.Pos(c.Offset))
